@@ -201,12 +201,12 @@ def _ft():
 
 
 _ST = "numpy replaced by vlib/symnp.py (abs, clip, min; validated against numpy each run); a message consumer stands in for the RunEngine; detector readings come from a tape of symbolic reals"
-register(Harness("c29_adaptive", "C29", make_adaptive, {"quick": dict(K=4, shards=32, budget_s=400, per_path_s=60), "thorough": dict(K=5, shards=32, budget_s=3000, per_path_s=120)},
+register(Harness("c29_adaptive", "C29", make_adaptive, {"quick": dict(K=4, shards=32, budget_s=400, per_path_s=60), "thorough": dict(K=4, shards=32, budget_s=3000, per_path_s=120)},
                  goals=["three-readings", "finished"], functions=_fa, mode="traced", float_model="real", opaque_text=True,
                  symbolic="stop, min_step, max_step, target_delta, threshold in (0, 0.999]: symbolic reals (start = 0); direction and backstep by fork; the first K detector readings: arbitrary symbolic reals",
                  out_of_bound="more than K readings per scan (termination is checked as: no stall, and with backstep off a minimum advance per reading); threshold above 0.999 (a backstep then never shrinks the step: outside the documented use); NaN/inf readings and float rounding (exact reals)",
                  stubs=_ST, require_exhaustive=True))
-register(Harness("c29_tune", "C29", make_tune, {"quick": dict(K=5, shards=16, budget_s=400, per_path_s=60), "thorough": dict(K=7, shards=16, budget_s=3000, per_path_s=120)},
+register(Harness("c29_tune", "C29", make_tune, {"quick": dict(K=5, shards=16, budget_s=400, per_path_s=60), "thorough": dict(K=6, shards=16, budget_s=3000, per_path_s=120)},
                  goals=["finished", "second-pass", "parked"], functions=_ft, mode="traced", float_model="real", opaque_text=True,
                  symbolic="min_step: symbolic real; start = 0, stop = +-1 (affine invariance of the position axis); num in {2,3}; step_factor in {2,3}; snake on/off; the first K signals: arbitrary non-negative symbolic reals",
                  out_of_bound="more than K readings (termination is checked as: each pass is at least step_factor times narrower than the one before, and a single-pass configuration ends after its pass); negative signals; num > 3; NaN/inf and float rounding",
